@@ -99,6 +99,56 @@ def sandbox(ctx):
     return envs, attacks, r
 
 
+POOL_KINDS = ["eval", "evalro", "evalna", "evalerr", "scan1", "scan2", "scan3", "within1", "within2", "scan1bad", "scan2bad",
+              "scan3bad", "nearby2bad", "scan2syn", "within1badarea", "within2badarea", "nested1", "nested2", "nestedro2", "nested2bad"]
+
+
+def pool(ctx, only=None):
+    """ScriptPool: the interpreter pool is sound for every sequence of commands that take interpreters (design), the real
+    pool follows the specification after every step (model -> code)."""
+    mc = ("---- MODULE MC_%%s ----\nEXTENDS ScriptPool, Json\nMCKinds == %s\n"
+          "Emit == [][PrintT(<<\"TR\", ToJson([steps |-> hist'])>>)]_vars\n====\n" % common.tla_set(POOL_KINDS))
+
+    def cfg(steps, mode, emit):
+        return ("SPECIFICATION Spec\n" + cfg_consts(Ini=5, Kinds="<- MCKinds", MaxSteps=steps, OnParseError=mode) +
+                "VIEW View\nINVARIANT PoolSound ArgvKept Accounted\n" + ("PROPERTY Emit\n" if emit else ""))
+    if only is not None:
+        beh = os.path.join(ctx.scratch, "pool_replay.ndjson")
+        open(beh, "w").write(json.dumps(only) + "\n")
+        r = {"distinct": 0, "generated": 0}
+        n = 1
+    else:
+        r = ctx.tlc("pool", ["ScriptPool.tla"], mc % "pool", cfg(ctx.pick(3, 4), "leak", True), workers=4, timeout=900)
+        if not r["ok"]:
+            raise common.Infra("ScriptPool (as coded) violates %s" % r["violated"])
+        beh = os.path.join(r["dir"], "beh.ndjson")
+        n = ctx.extract_tr(r["out"], beh)
+        for mode in ("once", "perclause"):
+            r2 = ctx.tlc("pool_" + mode, ["ScriptPool.tla"], mc % ("pool_" + mode), cfg(3, mode, False), workers=4, timeout=600,
+                         expect_violation=(mode == "perclause"))
+            if (mode == "perclause") != (r2["violated"] is not None):
+                raise common.Infra("ScriptPool with OnParseError=%s: expected %s, TLC says %s"
+                                   % (mode, "a violation" if mode == "perclause" else "no violation", r2["violated"]))
+    rc, js, err = ctx.harness(["pool-replay", "-in", beh, "-par", "16"], timeout=2400)
+    st = js["stats"]
+    ctx.log("interpreter pool: TLC %d states (as coded and with every taken interpreter closed once: sound; closed once per clause: "
+            "refuted); %d behaviours / %d steps replayed, pool audited after each step, %d mismatches"
+            % (r["distinct"], st["behaviours"], st["steps"], len(js.get("mismatches") or [])))
+    behs = open(beh).read().split("\n")
+    groups = {}
+    for m in js.get("mismatches") or []:
+        b = json.loads(behs[m["behaviour"]])
+        kinds = [x["kind"] for x in b["steps"]][:m["step"] + 1]
+        groups.setdefault((m["what"], kinds[-1]), []).append((m, b, kinds))
+    for (what, kind), ms in sorted(groups.items()):
+        m, b, kinds = ms[0]
+        common.report(ctx, "c18-pool-%s-%s" % (what, kind), "interpreter pool (%d behaviours) after %s: %s"
+                      % (len(ms), " ; ".join(kinds), m["detail"]), {"kind": "pool", "behaviour": b})
+    if st["steps"] == 0 or len(st["by_kind"]) < (len(POOL_KINDS) if only is None else 1):
+        raise common.Infra("pool replay did not exercise every step kind (vacuous): %s" % st["by_kind"])
+    return r, st
+
+
 def run(ctx):
     rng = random.Random(ctx.seed)
     if ctx.replay:
@@ -107,6 +157,8 @@ def run(ctx):
             runs = os.path.join(ctx.scratch, "replay_runs.ndjson")
             open(runs, "w").write((p["run"] + "\n") * 20)
             c07.record_and_validate(ctx, "replay", runs)
+        elif p.get("kind") == "pool":
+            pool(ctx, only=p["behaviour"])
         elif p.get("kind") == "script-gate":
             cf = os.path.join(ctx.scratch, "case.ndjson")
             open(cf, "w").write(json.dumps(p["case"]) + "\n")
@@ -127,12 +179,15 @@ def run(ctx):
     c07.make_runs(ctx, beh, runs, [2, 3, 4], 0.6, rng)
     st, ko, rec = c07.record_and_validate(ctx, "scripts", runs)
     envs, attacks, sb = sandbox(ctx)
+    pr, pst = pool(ctx)
     nscripts = st.get("scripts_eval", 0) + st.get("scripts_evalro", 0) + st.get("scripts_evalna", 0)
     if nscripts == 0 or st.get("evalna_interleaved", 0) == 0:
         raise common.Infra("no script / no EVALNA interleaving observed (vacuous)")
     common.write_evidence(ctx, "model_checking", {
-        "states": states + ko["distinct"] + sb["distinct"], "transitions": trans + ko["generated"] + sb["generated"],
-        "traces_validated_against_impl": ng + st.get("runs", 0) + envs,
+        "states": states + ko["distinct"] + sb["distinct"] + pr["distinct"],
+        "transitions": trans + ko["generated"] + sb["generated"] + pr["generated"],
+        "traces_validated_against_impl": ng + st.get("runs", 0) + envs + pst["behaviours"],
+        "interpreter_pool": {"behaviours": pst["behaviours"], "steps_audited": pst["steps"], "step_kinds": len(pst["by_kind"])},
         "forced_schedules": ng, "concurrent_runs": st.get("runs", 0), "scripts_in_runs": nscripts,
         "script_calls_validated": st.get("modelled", 0), "evalna_interleavings_observed": st.get("evalna_interleaved", 0),
         "interpreter_environments_judged": envs, "adversarial_scripts": attacks,
